@@ -58,7 +58,7 @@ Fixpoint wfb (d : ns) (t : mnode) : bool :=
   | ME (u, _) pf ds _ k =>
       let d' := eff_default d ds in
       (match u with
-       | Some _ => pf || ns_eqb u d'
+       | Some x => negb (beq x []) && (pf || ns_eqb u d')
        | None => negb pf
        end) && forallb (wfb d') k
   | _ => true
